@@ -561,12 +561,32 @@ func ruleNormalise(r *Run, p string, fn *ssa.Function, mustReject bool) {
 		pi = 1
 	}
 	accs := accumulators(w, fn, map[int]string{pi: "x"})
-	if len(accs) != 1 {
+	var accPhi *ssa.Phi
+	var normCall ssa.Value
+	switch {
+	case len(accs) == 1:
+		a := accs[0]
+		accPhi = a.Phi
+		r.Check(a.Update == eAdd("acc", eMul("x", "x")) && a.Init == "0", p+".DEF", "def:"+name+":norm", site, "norm² = Σ x²", "norm accumulator is "+a.Update)
+	case len(accs) == 0:
+		// the norm is taken from the package's Norm helper (itself checked to be sqrt(Σ x²) under def:Norm)
+		nf := w.Fn("Norm")
+		for _, call := range callsIn(fn, func(cc *ssa.CallCommon) bool { return nf != nil && staticCallee(cc) == nf }) {
+			if v, ok := call.(*ssa.Call); ok && len(v.Call.Args) == 1 {
+				if pr, ok := v.Call.Args[0].(*ssa.Parameter); ok && paramIndex(pr) == pi {
+					normCall = v
+				}
+			}
+		}
+		if normCall == nil {
+			r.Und(p+".DEF", "def:"+name+":norm", site, "norm accumulation loop not found")
+			return
+		}
+		r.Ok(p+".DEF", "def:"+name+":norm", site, "norm = Norm(x), the checked sqrt(Σ x²) helper")
+	default:
 		r.Und(p+".DEF", "def:"+name+":norm", site, "norm accumulation loop not found")
 		return
 	}
-	a := accs[0]
-	r.Check(a.Update == eAdd("acc", eMul("x", "x")) && a.Init == "0", p+".DEF", "def:"+name+":norm", site, "norm² = Σ x²", "norm accumulator is "+a.Update)
 	// division 1/norm
 	var div *ssa.BinOp
 	allInstrs(fn, func(in ssa.Instruction) {
@@ -578,7 +598,16 @@ func ruleNormalise(r *Run, p string, fn *ssa.Function, mustReject bool) {
 		r.Bad(p+".DEF", "def:"+name+":scale", site, "no division by the norm")
 		return
 	}
-	ex := distExpr(w, fn, a.Phi, map[int]string{pi: "x"})
+	ex := distExpr(w, fn, accPhi, map[int]string{pi: "x"})
+	if normCall != nil {
+		inner := ex.Leaf
+		ex.Leaf = func(v ssa.Value) (string, bool) {
+			if v == normCall {
+				return eCall("math.Sqrt", "acc"), true
+			}
+			return inner(v)
+		}
+	}
 	ds := ex.S(div)
 	r.Check(ds == eDiv("1", eCall("math.Sqrt", "acc")), p+".DEF", "def:"+name+":scale", w.InstrPos(div)+" "+name, "scale = 1/sqrt(Σx²)", "scale is "+ds)
 	// element: x·scale, stored at the same index it was read from
